@@ -524,7 +524,10 @@ impl Monitors {
         // C06: across a restart a node is never behind anything it told others
         persist::check_restart(self, nodes, v, post, step);
         // C09(c): configuration at the applied index
-        member::check_conf_at_applied(self, nodes, v, post.applied, "restart", step);
+        // the configuration restored at start belongs to the application's durable applied index
+        // (Config.applied may under-report it)
+        let app_applied = nodes[v].store.with(|s| s.dur.applied);
+        member::check_conf_at_applied(self, nodes, v, app_applied, "restart", step);
         self.c02_leader(id, post, step);
         if post.term > self.g.max_term {
             self.g.max_term = post.term;
@@ -1368,6 +1371,7 @@ impl Monitors {
                 self.stats.inc(if local { "c20.local_offered" } else { "c20.stranger_responses" });
                 let mut f = Fp::new();
                 f.u(t as u64).u(pre.state as u64).u(local as u64);
+                cluster_fp(nodes, &mut f);
                 self.stats.hit("C20", f.get());
                 let rejected = matches!(res, Res::Err(e) if e.contains(want));
                 let unchanged = view_digest(pre) == view_digest(post);
@@ -1390,6 +1394,38 @@ impl Monitors {
                         step,
                     );
                 }
+            }
+        }
+    }
+}
+
+/// Abstract fingerprint of the whole cluster (roles, term order, log/commit gaps, configuration
+/// shapes, who is down), folded into a monitor's own case fingerprint so that the number of
+/// distinct cases reflects distinct cluster situations, not just distinct local shapes.
+pub fn cluster_fp(nodes: &[Node], f: &mut Fp) {
+    let mut min_term = u64::MAX;
+    let mut max_commit = 0;
+    for n in nodes {
+        if let Some(r) = n.raw.as_ref() {
+            min_term = min_term.min(r.raft.term);
+            max_commit = max_commit.max(r.raft.raft_log.committed);
+        }
+    }
+    for n in nodes {
+        match n.raw.as_ref() {
+            None => {
+                f.u(99);
+            }
+            Some(r) => {
+                let log = &r.raft.raft_log;
+                f.u(r.raft.state as u64)
+                    .u((r.raft.term - min_term).min(3))
+                    .u((max_commit - log.committed).min(3))
+                    .u((log.last_index() - log.committed.min(log.last_index())).min(3))
+                    .u((log.first_index() > 1) as u64)
+                    .u(n.conf.voters.len() as u64)
+                    .u(n.conf.is_joint() as u64)
+                    .u((r.raft.leader_id != 0) as u64);
             }
         }
     }
